@@ -5,7 +5,7 @@ V=$(cd "$(dirname "$0")/.." && pwd); cd $V
 IDS=${@:-$(ls seeded | grep -E '^C[0-9]+-')}
 for n in $IDS; do
   P=${n%%-*}
-  OUT=$(MUT_LINES=1 ./tools/mutate.sh seeded/$n/patch.diff $P quick 2>&1)
+  OUT=$(VERIF_FAILFAST=1 MUT_LINES=1 ./tools/mutate.sh seeded/$n/patch.diff $P quick 2>&1)
   VIO=$(echo "$OUT" | grep -m1 '^VIOLATION' | sed 's/.*:: //' | cut -c1-200)
   R=$(echo "$OUT" | tail -1 | cut -d' ' -f1)
   VROOT=$V python3 - "$n" "$P" "$R" "$VIO" <<'PY'
